@@ -5,6 +5,7 @@ CONSTANTS
   Lens <- L12
   OutLens <- O2
   TrailerLen <- NoTrailer
+  DeclaredLen = FALSE
   Limit = 2
   Cuts = TRUE
   MaxWrite = 7
